@@ -191,7 +191,11 @@ def _tailify(stmts: List[ast.stmt], emit) -> Optional[List[ast.stmt]]:
                 o = _tailify(list(s.orelse) + rest, emit)
                 if b is None or o is None:
                     return None
-                new = ast.If(test=s.test, body=b or [ast.Pass()], orelse=o)
+                if not b and o:
+                    # nothing left in the taken branch: write it the direct way round (if not c: <rest>)
+                    new = ast.If(test=_push_not(s.test, True), body=o, orelse=[])
+                else:
+                    new = ast.If(test=s.test, body=b or [ast.Pass()], orelse=o)
                 out.append(ast.copy_location(new, s))
                 return out
             if isinstance(s, ast.Try) and not any(_returns_in(x) for x in s.body + s.finalbody + s.orelse):
@@ -1087,6 +1091,57 @@ def normalise_conditions(trees: Dict[str, ast.Module]) -> Dict[str, str]:
                 else:
                     holder[key] = t2
                 n_nnf += 1
+    # a literal that was given a local name (wildcard = "*"; prefixes = ("done.", "error.")) is read as the literal
+    n_const = 0
+    known_loc = {}
+    if os.path.exists(KNOWN_FILE):
+        with open(KNOWN_FILE) as fh_:
+            known_loc = json.load(fh_).get("locals", {})
+    for mod_, tree in trees.items():
+        for qn, fn, chain in qualnames(tree, mod_):
+            ref_locals = set(known_loc.get(qn, []))
+            stores = {}
+            for x in ast.walk(fn):
+                if isinstance(x, ast.Name) and isinstance(x.ctx, (ast.Store, ast.Del)):
+                    stores[x.id] = stores.get(x.id, 0) + 1
+            for owner in ast.walk(fn):
+                for fld in ("body", "orelse", "finalbody"):
+                    blk = getattr(owner, fld, None)
+                    if not (isinstance(blk, list) and blk and isinstance(blk[0], ast.stmt)):
+                        continue
+                    for a in list(blk):
+                        if not (isinstance(a, ast.Assign) and len(a.targets) == 1 and isinstance(a.targets[0], ast.Name)):
+                            continue
+                        nm, v = a.targets[0].id, a.value
+                        lit = isinstance(v, ast.Constant) and isinstance(v.value, (str, int, float)) and not isinstance(v.value, bool) or \
+                            (isinstance(v, ast.Tuple) and v.elts and all(isinstance(e, ast.Constant) and isinstance(e.value, str) for e in v.elts))
+                        if not lit or stores.get(nm, 0) != 1 or nm in ref_locals:
+                            continue          # (names the reference function already has keep their meaning for the rules)
+
+                        class K(ast.NodeTransformer):
+                            def visit_Name(self, x):
+                                return copy.deepcopy(v) if x.id == nm and isinstance(x.ctx, ast.Load) else x
+                        fn.body = [K().visit(st) if st is not a else st for st in fn.body]
+                        blk2 = getattr(owner, fld)
+                        if a in blk2:
+                            blk2.remove(a)
+                            if not blk2:
+                                blk2.append(ast.Pass())
+                        n_const += 1
+        _fold_fstrings(tree)
+    # the inliner's own temporaries assigned in both branches of an if / else:  if c: __h = A  else: __h = B   ->   __h = A if c else B
+    for tree in trees.values():
+        for owner in ast.walk(tree):
+            for fld in ("body", "orelse", "finalbody"):
+                blk = getattr(owner, fld, None)
+                if not (isinstance(blk, list) and blk and isinstance(blk[0], ast.stmt)):
+                    continue
+                for i, st in enumerate(blk):
+                    if isinstance(st, ast.If) and len(st.body) == 1 and len(st.orelse) == 1 and all(
+                            isinstance(b_, ast.Assign) and len(b_.targets) == 1 and isinstance(b_.targets[0], ast.Name) for b_ in (st.body[0], st.orelse[0])) \
+                            and st.body[0].targets[0].id == st.orelse[0].targets[0].id and st.body[0].targets[0].id.startswith("__h"):
+                        new_ = ast.Assign(targets=[st.body[0].targets[0]], value=ast.IfExp(test=st.test, body=st.body[0].value, orelse=st.orelse[0].value))
+                        blk[i] = ast.fix_missing_locations(ast.copy_location(new_, st))
     # a sort key (or any small function) that was given a name:  by_depth = lambda s: (s.depth, s.id) ... sorted(x, key=by_depth)
     n_lam = 0
     known_ = load_known() or set()
@@ -1136,6 +1191,8 @@ def normalise_conditions(trees: Dict[str, ast.Module]) -> Dict[str, str]:
                                 blk2.append(ast.Pass())
                         n_lam += 1
     out = {}
+    if n_const:
+        out["<literals>"] = f"{n_const} literal(s) that were given a local name read in place"
     if n_lam:
         out["<lambdas>"] = f"{n_lam} named lambda(s) read where they are used"
     if n_fold:
